@@ -159,6 +159,22 @@ pub proof fn lemma_col_lt(A: CscMatrix<F>, c: int, i: int, j: int)
     assert(A.rowval@[lo + j - 1] < A.rowval@[lo + j - 1 + 1]);
     if i < j - 1 { lemma_col_lt(A, c, i, j - 1); }
 }
+
+// ---- row selection ----
+// number of selected rows among the first r = the new index of row r
+pub open spec fn rank(sel: Seq<bool>, r: int) -> int decreases r { if r <= 0 { 0 } else { rank(sel, r - 1) + (if sel[r - 1] { 1int } else { 0int }) } }
+pub proof fn lemma_rank_mono(sel: Seq<bool>, a: int, b: int)
+    requires 0 <= a <= b,
+    ensures 0 <= rank(sel, a) <= rank(sel, b), rank(sel, a) <= a, rank(sel, b) - rank(sel, a) <= b - a,
+    decreases b,
+{ if a < b { lemma_rank_mono(sel, a, b - 1); } else if a > 0 { lemma_rank_mono(sel, a - 1, a - 1); } }
+// number of stored entries among the first k that lie in a selected row = the slot entry k moves to
+pub open spec fn keptp(rv: Seq<usize>, sel: Seq<bool>, k: int) -> int decreases k { if k <= 0 { 0 } else { keptp(rv, sel, k - 1) + (if sel[rv[k - 1] as int] { 1int } else { 0int }) } }
+pub proof fn lemma_keptp_mono(rv: Seq<usize>, sel: Seq<bool>, a: int, b: int)
+    requires 0 <= a <= b,
+    ensures 0 <= keptp(rv, sel, a) <= keptp(rv, sel, b), keptp(rv, sel, a) <= a, keptp(rv, sel, b) - keptp(rv, sel, a) <= b - a,
+    decreases b,
+{ if a < b { lemma_keptp_mono(rv, sel, a, b - 1); } else if a > 0 { lemma_keptp_mono(rv, sel, a - 1, a - 1); } }
 pub open spec fn nonzero(x: F) -> bool { !f_eq(x, f_zero()) }
 // number of stored entries among the first k whose value is not zero = the slot entry k moves to
 pub open spec fn kept(nz: Seq<F>, k: int) -> int decreases k { if k <= 0 { 0 } else { kept(nz, k - 1) + (if nonzero(nz[k - 1]) { 1int } else { 0int }) } }
@@ -332,11 +348,6 @@ it2
                 !r21_k2 ==> exists|i: int| 0 <= i < self.rowval@.len() && #[trigger] self.rowval@[i] >= self.m,
 //@end
 
-//@fn file=src/algebra/csc/core.rs in="impl<T> CscMatrix<T>" name=new rules=R1,R6 ret=r
-//@contract
-    requires rowval@.len() == nzval@.len(), colptr@.len() == n + 1, colptr@[n as int] == rowval@.len(),
-    ensures r.m == m, r.n == n, r.colptr@ == colptr@, r.rowval@ == rowval@, r.nzval@ == nzval@,
-//@end
 
 //@fn file=src/algebra/csc/core.rs in="impl<T> CscMatrix<T>" name=to_triu rules=R1,R6,R22,R15:rowval|nzval ret=r
 //@contract
@@ -447,11 +458,6 @@ it2
         }
 //@end
 
-//@fn file=src/algebra/csc/core.rs in="impl<T> CscMatrix<T>" name=nnz rules=R1 ret=r
-//@contract
-    requires self.colptr@.len() == self.n + 1,
-    ensures r == self.colptr@[self.n as int],
-//@end
 
 //@fn file=src/algebra/csc/core.rs in="impl<T> CscMatrix<T>" name=index_to_coord rules=R1,R23 ret=r
 //@contract
@@ -461,6 +467,113 @@ it2
         r.0 == self.rowval@[idx as int], in_col(*self, idx as int, r.1 as int),
 //@pre
         proof { lemma_mono_all(self.colptr@); assert(self.colptr@.len() == self.colptr.len()); }
+//@end
+
+//@include units/inc/csc_alloc.rs
+
+//@fn file=src/algebra/csc/core.rs in="impl<T> CscMatrix<T>" name=select_rows rules=R1,R6,R22,zipidx:1=mi ret=r
+//@contract
+    requires colptr_wf(*self), rows_in_range(*self), rowidx@.len() == self.m, self.n < usize::MAX,
+    ensures
+        // C16 (row selection): the result has the selected rows, renumbered by rank, and the same columns;
+        // an entry in a selected row moves to slot keptp(k) with its value, entries of other rows disappear
+        r.m == rank(rowidx@, self.m as int), r.n == self.n, colptr_wf(r),
+        forall|c: int| 0 <= c <= self.n ==> #[trigger] r.colptr@[c] == keptp(self.rowval@, rowidx@, self.colptr@[c] as int),
+        r.nzval@.len() == keptp(self.rowval@, rowidx@, self.rowval@.len() as int), r.rowval@.len() == r.nzval@.len(),
+        forall|k: int| 0 <= k < self.rowval@.len() && rowidx@[self.rowval@[k] as int] ==> r.nzval@[keptp(self.rowval@, rowidx@, k)] == #[trigger] self.nzval@[k],
+        forall|k: int| 0 <= k < self.rowval@.len() && rowidx@[#[trigger] self.rowval@[k] as int] ==> r.rowval@[keptp(self.rowval@, rowidx@, k)] == rank(rowidx@, self.rowval@[k] as int),
+//@pre
+        proof { assert(self.rowval@.len() == self.rowval.len()); assert(self.colptr@.len() == self.colptr.len()); assert(rowidx@.len() == rowidx.len()); }
+        let ghost sel = rowidx@;
+        let ghost rv0 = self.rowval@;
+        let ghost nnz = self.rowval@.len() as int;
+//@iter 1
+it0
+//@loop 1
+            invariant
+                it0.seq().len() == r14_n1, range_from(it0.seq(), 0), r14_n1 == self.m, rridx@.len() == self.m, rowidx@.len() == self.m, sel == rowidx@,
+                mred == rank(sel, it0.index@ as int), mred <= it0.index@,
+                forall|q: int| 0 <= q < it0.index@ && sel[q] ==> #[trigger] rridx@[q] == rank(sel, q),
+//@body_start 1
+                proof { assert(rank(sel, it0.index@ + 1) == rank(sel, it0.index@ as int) + (if sel[it0.index@ as int] { 1int } else { 0int })); }
+//@iter 2
+it1
+//@loop 2
+            invariant
+                it1.seq().len() == rv0.len(), (forall|i: int| 0 <= i < rv0.len() ==> *(#[trigger] it1.seq()[i]) == rv0[i]), rv0 == self.rowval@, sel == rowidx@,
+                rows_in_range(*self), rowidx@.len() == self.m, rv0.len() <= usize::MAX,
+                r22_n1 == keptp(rv0, sel, it1.index@ as int), r22_n1 <= it1.index@,
+//@body_start 2
+            proof {
+                assert(keptp(rv0, sel, it1.index@ + 1) == keptp(rv0, sel, it1.index@ as int) + (if sel[rv0[it1.index@ as int] as int] { 1int } else { 0int }));
+                assert(self.rowval@[it1.index@ as int] < self.m);
+            }
+//@iter 3
+it2
+//@loop 3
+        invariant
+            it2.seq().len() == self.n, range_from(it2.seq(), 0), colptr_wf(*self), rows_in_range(*self), rowidx@.len() == self.m, rridx@.len() == self.m, sel == rowidx@, rv0 == self.rowval@,
+            nnz == rv0.len(), nnz <= usize::MAX, self.n < usize::MAX,
+            Ared.n == self.n, Ared.m == mred, mred == rank(sel, self.m as int), Ared.colptr@.len() == self.n + 1, Ared.rowval@.len() == nzred, Ared.nzval@.len() == nzred, nzred == keptp(rv0, sel, nnz),
+            forall|q: int| 0 <= q < self.m && sel[q] ==> #[trigger] rridx@[q] == rank(sel, q),
+            ptrred == keptp(rv0, sel, self.colptr@[it2.index@ as int] as int),
+            forall|c: int| 0 <= c < it2.index@ ==> #[trigger] Ared.colptr@[c] == keptp(rv0, sel, self.colptr@[c] as int),
+            it2.index@ > 0 ==> Ared.colptr@[self.n as int] == ptrred,
+            it2.index@ == 0 ==> Ared.colptr@[self.n as int] == nzred,
+            forall|k: int| 0 <= k < self.colptr@[it2.index@ as int] && sel[rv0[k] as int] ==> Ared.nzval@[keptp(rv0, sel, k)] == #[trigger] self.nzval@[k],
+            forall|k: int| 0 <= k < self.colptr@[it2.index@ as int] && sel[#[trigger] rv0[k] as int] ==> Ared.rowval@[keptp(rv0, sel, k)] == rank(sel, rv0[k] as int),
+//@body_start 3
+            let ghost gc = col as int;
+            proof { assert(self.colptr@[gc] <= self.colptr@[gc + 1] <= self.colptr@[self.n as int]); }
+//@iter 4
+it3
+//@loop 4
+                invariant
+                    0 <= gc < self.n, col == gc, it3.seq().len() == self.colptr@[gc + 1] - self.colptr@[gc], range_from(it3.seq(), self.colptr@[gc] as int),
+                    self.colptr@[gc] <= self.colptr@[gc + 1] <= nnz,
+                    colptr_wf(*self), rows_in_range(*self), rowidx@.len() == self.m, rridx@.len() == self.m, sel == rowidx@, rv0 == self.rowval@, nnz == rv0.len(), nnz <= usize::MAX,
+                    Ared.n == self.n, Ared.m == mred, Ared.colptr@.len() == self.n + 1, Ared.rowval@.len() == nzred, Ared.nzval@.len() == nzred, nzred == keptp(rv0, sel, nnz),
+                    forall|q: int| 0 <= q < self.m && sel[q] ==> #[trigger] rridx@[q] == rank(sel, q),
+                    ptrred == keptp(rv0, sel, self.colptr@[gc] + it3.index@),
+                    forall|c: int| 0 <= c <= gc ==> #[trigger] Ared.colptr@[c] == keptp(rv0, sel, self.colptr@[c] as int),
+                    forall|k: int| 0 <= k < self.colptr@[gc] + it3.index@ && sel[rv0[k] as int] ==> Ared.nzval@[keptp(rv0, sel, k)] == #[trigger] self.nzval@[k],
+                    forall|k: int| 0 <= k < self.colptr@[gc] + it3.index@ && sel[#[trigger] rv0[k] as int] ==> Ared.rowval@[keptp(rv0, sel, k)] == rank(sel, rv0[k] as int),
+//@body_start 4
+                let ghost gk = ptr as int;
+                let ghost nz1 = Ared.nzval@;
+                let ghost rv1 = Ared.rowval@;
+                proof {
+                    assert(keptp(rv0, sel, gk + 1) == keptp(rv0, sel, gk) + (if sel[rv0[gk] as int] { 1int } else { 0int }));
+                    assert(self.rowval@[gk] < self.m);
+                    lemma_keptp_mono(rv0, sel, gk + 1, nnz);
+                }
+//@body_end 4
+                proof {
+                    assert(gk == self.colptr@[gc] + it3.index@);
+                    assert forall|k: int| 0 <= k < gk + 1 && sel[rv0[k] as int] implies Ared.nzval@[keptp(rv0, sel, k)] == #[trigger] self.nzval@[k] by {
+                        if k < gk {
+                            lemma_keptp_mono(rv0, sel, k + 1, gk);
+                            assert(keptp(rv0, sel, k + 1) == keptp(rv0, sel, k) + 1);
+                            assert(nz1[keptp(rv0, sel, k)] == self.nzval@[k]);
+                        }
+                    }
+                    assert forall|k: int| 0 <= k < gk + 1 && sel[#[trigger] rv0[k] as int] implies Ared.rowval@[keptp(rv0, sel, k)] == rank(sel, rv0[k] as int) by {
+                        if k < gk {
+                            lemma_keptp_mono(rv0, sel, k + 1, gk);
+                            assert(keptp(rv0, sel, k + 1) == keptp(rv0, sel, k) + 1);
+                            assert(rv1[keptp(rv0, sel, k)] == rank(sel, rv0[k] as int));
+                        }
+                    }
+                }
+//@post
+        proof {
+            lemma_keptp_mono(rv0, sel, 0, nnz);
+            assert forall|c: int| 0 <= c <= self.n implies #[trigger] r_v.colptr@[c] == keptp(rv0, sel, self.colptr@[c] as int) by { }
+            assert forall|a: int, b: int| 0 <= a <= b <= self.n implies r_v.colptr@[a] <= r_v.colptr@[b] by {
+                assert(self.colptr@[a] <= self.colptr@[b]);
+                lemma_keptp_mono(rv0, sel, self.colptr@[a] as int, self.colptr@[b] as int);
+            }
+        }
 //@end
 
 //@fn file=src/algebra/csc/core.rs in="impl<T> CscMatrix<T>" name=is_triu rules=R1,R21,R5 ret=r
